@@ -11,7 +11,8 @@ RULE = ('A real BP agent processes one received bundle (independent RFC 9171 enc
         'bundles.  Enumerated completely: every subset of the five report flags (reception, forwarding, delivery, '
         'deletion, status-time) x report-to {dtn:none, dtn node, ipn node} x outcome {deliver, forward, forward with '
         'fragmentation, delete route, no route, forward without transmit route, security failure, forward whose '
-        'convergence layer raises at hand-over, the same with a bundle that has to be fragmented} = 864 cells; '
+        'convergence layer raises at hand-over, the same with a bundle that has to be fragmented, a fragmented forward whose '
+        'convergence layer takes the first fragment and raises from the second on, a fragment that cannot be used} = 1056 cells; '
         'Hypothesis adds random bundle content (EIDs, timestamps on CBOR boundaries, CRC types, extension blocks, '
         'payload sizes) around the same cells.  Oracle on the octets handed to the convergence layer, parsed '
         'independently: a report appears only if report-to != dtn:none and a requested action occurred (occurrence '
@@ -26,11 +27,12 @@ ASSUMPTIONS = [
     'bundles that are themselves administrative records are not generated (RFC 9171 forbids report requests on them)',
     'for a bundle that matches no route the agent records nothing but "received"; only the "only if" direction is judged there',
 ]
-EXHAUSTIVE_PART = '2^5 report-flag subsets x 3 report-to values x 9 outcomes = 864 cells'
+EXHAUSTIVE_PART = '2^5 report-flag subsets x 3 report-to values x 11 outcomes = 1056 cells'
 
 NODE = 'dtn://me/'
 OUTCOMES = ['deliver', 'forward', 'forward-frag', 'delete', 'noroute', 'fwd-no-tx', 'sec-fail', 'fwd-cl-fails', 'fwd-frag-cl-fails',
-            'frag-unusable']
+            'frag-unusable', 'fwd-frag-cl-fails-late']
+FRAG_OUTCOMES = ('forward-frag', 'fwd-frag-cl-fails', 'fwd-frag-cl-fails-late')
 RPT_TO = [['dtn', 'none'], ['dtn', '//reports/here'], ['ipn', 77, 2]]
 
 
@@ -90,7 +92,7 @@ def single_cases():
 def enumerate_cases(tier):
     for outcome, mask, rpt in itertools.product(OUTCOMES, range(32), range(3)):
         yield {'history': [{'outcome': outcome, 'mask': mask, 'rpt': rpt, 'src': ['dtn', '//src/'], 'ts': [1000, mask],
-                            'pcrc': 1, 'ycrc': 2, 'plen': 600 if outcome in ('forward-frag', 'fwd-frag-cl-fails') else 20, 'ext': [], 'other_flags': 0}]}
+                            'pcrc': 1, 'ycrc': 2, 'plen': 600 if outcome in FRAG_OUTCOMES else 20, 'ext': [], 'other_flags': 0}]}
 
 
 def pinned_cases():
@@ -108,13 +110,13 @@ def build(item, index):
     outcome = item['outcome']
     dest = {'deliver': ['dtn', '//me/svc'], 'forward': ['dtn', '//fwd/x'], 'forward-frag': ['dtn', '//fwd/x'],
             'delete': ['dtn', '//del/x'], 'noroute': ['dtn', '//zzz/q'], 'fwd-no-tx': ['dtn', '//lost/x'],
-            'fwd-cl-fails': ['dtn', '//fwd/x'], 'fwd-frag-cl-fails': ['dtn', '//fwd/x'],
+            'fwd-cl-fails': ['dtn', '//fwd/x'], 'fwd-frag-cl-fails': ['dtn', '//fwd/x'], 'fwd-frag-cl-fails-late': ['dtn', '//fwd/x'],
             # a lone fragment for a local endpoint that the reassembly step cannot use (it declares 2^63 octets in all):
             # it is received, and nothing else happens to it
             'frag-unusable': ['dtn', '//me/svc'],
             'sec-fail': ['dtn', '//me/svc']}[outcome]
     flags = flag_bits(item['mask']) | int(item.get('other_flags', 0))
-    if outcome in ('forward-frag', 'fwd-frag-cl-fails'):
+    if outcome in FRAG_OUTCOMES:
         flags &= ~r.FLAG_NO_FRAGMENT
     src = item['src']
     if r.eid_text(src) == NODE:
@@ -318,7 +320,7 @@ def one(node, item, index, out, seen):
         out.label('repeat-in-history')
         return
     seen.add(ident)
-    if outcome in ('forward-frag', 'fwd-frag-cl-fails'):
+    if outcome in FRAG_OUTCOMES:
         empty = dict(bundle, blocks=bundle['blocks'][:-1] + [dict(bundle['blocks'][-1], data='')])
         node.set_mtu(0, len(r.encode(empty)) + 80)
     else:
@@ -326,6 +328,9 @@ def one(node, item, index, out, seen):
     # the convergence layer towards the forwarding next hop fails at hand-over (its service went away); reports travel
     # over another next hop and still get out
     node.cl.fail_next = {'dtn://next/'} if outcome in ('fwd-cl-fails', 'fwd-frag-cl-fails') else set()
+    # ... or takes the first fragment and fails from the second on: part of the bundle has left the node
+    node.cl.fail_after = {'dtn://next/': len([1 for cfg, _d, _t in node.cl.sent if (cfg or {}).get('next') == 'dtn://next/']) + 1} \
+        if outcome == 'fwd-frag-cl-fails-late' else {}
     n_sent, n_rec = len(node.sent()), len(node.records())
     err = node.receive(wire)
     if err is not None:
@@ -357,7 +362,7 @@ def one(node, item, index, out, seen):
         occurred.add('delivered')
     if forwarded:
         occurred.add('forwarded')
-    if outcome in ('delete', 'fwd-no-tx', 'sec-fail', 'fwd-cl-fails', 'fwd-frag-cl-fails') and not delivered and not forwarded:
+    if outcome in ('delete', 'fwd-no-tx', 'sec-fail', 'fwd-cl-fails', 'fwd-frag-cl-fails', 'fwd-frag-cl-fails-late') and not delivered and not forwarded:
         occurred.add('deleted')
     want_kind = {'deliver': 'delivered', 'forward': 'forwarded', 'forward-frag': 'forwarded'}.get(outcome)
     if want_kind and want_kind not in occurred:
